@@ -1174,6 +1174,23 @@ MUTANTS = [
     dict(id="C02.f-upgrade-keeps-memoised-node-info", prop="C02", file=CG + "database/snapshot.rs",
          old="        self.query_kind = None;\n        self.node_info = None;\n", new="        self.query_kind = None;\n",
          expect="C02.f/Snapshot::upgrade_to_exclusive/forgets-every-memoised-column"),
+    dict(id="C01.c-buffered-dirty-edge-with-roles-swapped", prop="C01", file=CG + "dirty_worker.rs",
+         old="                    task.push_to_buffer(Edge::new(caller, *task.query_id()));", new="                    task.push_to_buffer(Edge::new(*task.query_id(), caller));",
+         expect="C01.c/edge-roles"),
+    dict(id="C01.c-dirty-test-with-roles-swapped", prop="C01", file=CG + "repair.rs",
+         old="        let edge_is_dirty = engine.is_edge_dirty(*query_id, *callee).await;", new="        let edge_is_dirty = engine.is_edge_dirty(*callee, *query_id).await;",
+         expect="C01.c/edge-roles"),
+    dict(id="C01.a-dirty-mark-with-roles-swapped", prop="C01", file=CG + "dirty_worker.rs",
+         old="""                        .mark_dirty_forward_edge(
+                            caller,
+                            *task.query_id(),
+                            &mut *write_tx,
+                        )""", new="""                        .mark_dirty_forward_edge(
+                            *task.query_id(),
+                            caller,
+                            &mut *write_tx,
+                        )""",
+         expect="C01."),
     # ------------------------------------------------------------------ C09.f (D5)
     dict(id="C09.f-D5-fold-heap-in-arbitrary-order", prop="C09", file=ST + "key_of_set_map/cache.rs",
          old="""        let mut ordered = log.iter().collect::<Vec<_>>();
